@@ -109,9 +109,11 @@ def split_file(text, width=128):
             continue
         data, dollar = split_dollar(line)
         is_cont = cont_amp or line[:5].strip() == ""
-        amp = data.rstrip().endswith("&")
+        # S7: the continuation mark is an "&" that ends the line's data and is preceded by a blank
+        # (tied to coq/Spec/Cards.v by harness/spec_tie.py)
+        amp = data.rstrip(" ").endswith(" &")
         if amp:
-            data = data.rstrip()[:-1]
+            data = data.rstrip(" ")[:-1]
         if is_cont and cur is not None:
             cur.comments += pending
             pending = []
